@@ -245,6 +245,21 @@ def run(ctx):
     n_same = sum(1 for i, j in pairs if canon[i] == canon[j])
     if n_true == 0 or n_false == 0 or n_same <= n:
         raise Machinery("vacuous: == was never True / never False, or the pool has no pair of distinct literals for the same value")
+    # struct literals written in different field orders: values that differ field by field must be unequal whatever the
+    # order the fields are written in (whether the SAME fields in another order are equal is left open by the statement)
+    fo = [("Sw{ x: 1, y: 2 }", "Sw{ y: 1, x: 2 }"), ("Sw{ y: 2, x: 1 }", "Sw{ y: 1, x: 2 }"), ("Sw{ x: 1, y: 2 }", "Sw{ x: 2, y: 1 }"),
+          ("[Sw{ x: 1, y: 2 }]", "[Sw{ y: 1, x: 2 }]"), ("Some(Sw{ x: 1, y: 2 })", "Some(Sw{ y: 1, x: 2 })"), ("Sg{ a: \"p\", b: \"q\" }", "Sg{ b: \"p\", a: \"q\" }"),
+          ("Dict[\"k\" => Sw{ x: 1, y: 2 }]", "Dict[\"k\" => Sw{ y: 1, x: 2 }]")]
+    src = "struct Sw { x: Int, y: Int }\nstruct Sg { a: String, b: String }\n" + "".join(f"println(string_repr({a} == {b}) ^ \" \" ^ string_repr({a} != {b}))\n" for a, b in fo)
+    r = ctx.pool.one({"op": "run", "src": src, "tick_limit": 100000})
+    lines = (r.get("stdout") or "").split("\n")[:-1]
+    if (r.get("outcome") or {}).get("kind") != "ok" or len(lines) != len(fo):
+        raise Machinery(f"field-order program failed: {str(r)[:300]}")
+    for (a, b), line in zip(fo, lines):
+        if line != "False True":
+            ctx.violation("struct == struct: values that differ field by field compare equal when the fields are written in another order", {"a": a, "b": b, "printed": line},
+                          cli_cmd=f"garden run -c 'println(string_repr({a} == {b}))'")
+    ctx.outcome("field-order pairs", len(fo))
     ctx.add(states=len(pairs) + 2 * n, transitions=executions, evaluations=2 * len(pairs) + 4 * n, nontrivial=n_same + sum(1 for i, j in pairs if kinds[i] == kinds[j] and canon[i] != canon[j]))
     ctx.sample({"a": P[9][0], "b": P[9][0], "a == b": EQ[(9, 9)], "expected": True})
     i47 = next(i for i in range(n) if P[i][0] == 'Dict["a" => 1, "b" => 2]')
